@@ -52,6 +52,20 @@ def amplifier_tight(bw_bytes: int) -> Dict[str, Any]:
     return cfg
 
 
+def amplifier_tap() -> Dict[str, Any]:
+    """Shipped UC7 with the threat actor given a choice of several starting nodes and target addresses (every
+    setting that is a list is a candidate for an order that depends on the process)."""
+    cfg = scenarios.shipped("uc7_config.yaml")
+    for ag in cfg["agents"]:
+        if ag.get("type") == "tap-001":
+            st = ag["agent_settings"]
+            st["starting_nodes"] = ["ST_PROJ-A-PRV-PC-1", "ST_PROJ-A-PRV-PC-2", "ST_PROJ-B-PRV-PC-1", "ST_PROJ-B-PRV-PC-2",
+                                    "ST_PROJ-C-PRV-PC-1", "ST_PROJ-C-PRV-PC-2"]
+            st["start_step"] = 1
+            st["frequency"] = 2
+    return cfg
+
+
 PROFILES = [
     ("hash1", {"hashseed": 1}),
     ("hash2", {"hashseed": 2}),
@@ -84,6 +98,7 @@ def main(tier: str, seed: int) -> int:
         ("amplifier_nmap_/29", {"cfg": amplifier_nmap()}, 5),
         ("amplifier_tight_2frames", {"cfg": amplifier_tight(t2)}, 3),
         ("amplifier_tight_8frames", {"cfg": amplifier_tight(t8)}, 3),
+        ("amplifier_tap_start_nodes", {"cfg": amplifier_tap()}, 60),
     ]
     if tier == "thorough":
         scen += [
